@@ -111,8 +111,13 @@ def register_safe_name(db):
     db.add(Contract(
         f"{F}.safe_name", params={"self": filters, "name": "str", "prefix": "str", "name_case": "opaque:NameCase"},
         kwargs={"known": {}, "open": False},
-        ensures=[("never-a-reserved-word", "not uf('is_reserved', 'bool', result)")],
+        ensures=[("never-a-reserved-word", "not uf('is_reserved', 'bool', result)"),
+                 ("a-usable-name-is-only-put-through-the-naming-convention",
+                  "implies(len(name) > 0 and matches(name, '[\\x00-\\x7f]*') and not matches(name, '-[0-9]*\\.?[0-9]+\\n?') and len(uf('alnum', 'str', name)) > 0 and "
+                  "py_isalpha(uf('alnum', 'str', name)[0]) and not uf('is_reserved', 'bool', uf('NameCase.__call__', 'str', name_case, name)), "
+                  "result == uf('NameCase.__call__', 'str', name_case, name))")],
         raises={}, returns="str", properties=["C07"], call_default=True,
         note="assumed: text.is_reserved (membership in the stop-word set) is a function of the string; name_case is an "
-             "arbitrary function str -> str",
+             "arbitrary function str -> str; the pass-through clause is stated for ASCII names (the engine reads \\d as [0-9], "
+             "Python also matches other Unicode decimal digits)",
     ))
